@@ -244,8 +244,11 @@ def run_scenario(seed, shard, idx, tier):
         for _ in range(count):
             plans.append({"kind": "interrupt",
                           "step": rng.randrange(base.lines), "arg": None})
+    import hashlib
+    rolling = hashlib.sha256(stats["digest"].encode())
     for plan in plans:
         res = driver.execute(recipe, [plan])
+        rolling.update(res.digest().encode())
         stats["runs"] += 1
         stats["steps"] += res.steps
         stats["planned"][plan["kind"]] = \
@@ -258,6 +261,7 @@ def run_scenario(seed, shard, idx, tier):
         for cls in judge(recipe, fs0, res, True, base):
             stats["violations"].append(
                 {"class": cls, "recipe": recipe, "faults": [plan]})
+    stats["digest"] = rolling.hexdigest()
     if idx % 97 == 0:
         stats["sample"] = {
             "tool": recipe["tool"], "argv": recipe["argv"],
